@@ -9,9 +9,9 @@ from ..terms import F, C, V, A
 NSHARDS = 64
 
 
-def tree_case(tree, continuation=False, extra_script=False):
+def tree_case(tree, continuation=False, extra_script=False, prefix=False, suffix=0):
     body, k = bodies.instantiate(tree)
-    prog, nargs = bodies.context_program(body, k, continuation=continuation)
+    prog, nargs = bodies.context_program(body, k, continuation=continuation, prefix=prefix, suffix=suffix)
     scripts = [(LEAF_PROGRAM, True, True), (prog, True, False)]
     if extra_script:
         # a second script adding clauses of p without overwrite: its clauses come after the
